@@ -190,6 +190,11 @@ def block_catalogue(r, tier):
     add("time-now+7200", base, time=NOW + 7200)
     add("time-now+7201", base, time=NOW + 7201)
     add("time-max", base, time=0xffffffff)
+    # a clock with a fractional part (time.time()): nTime > cur_time + 7200 is decided on the exact values
+    for frac in (0.4, 0.6, 0.999):
+        for dt in (7200, 7201):
+            h_ = header(base, time=NOW + dt)
+            out.append(("time-now+%s+%d" % (frac, dt), h_, base, NOW + frac, False, True))
     # witness commitment
     nonce = gen.rbytes(r, 32)
     wtx = valid_tx(r, 1, 1)
@@ -293,7 +298,7 @@ def drive(tier):
             d = dict(h)
             d["vtx"] = txs
             if k == "exc":
-                R.add("check.blk", {"blk": gen.block_json(d), "now": now, "pow": pw, "merkle": mf, "name": name}, dict(exc_info(blk), k="exc", stage="build"), chain=ch)
+                R.add("check.blk", {"blk": gen.block_json(d), "now": int(now // 1), "pow": pw, "merkle": mf, "name": name}, dict(exc_info(blk), k="exc", stage="build"), chain=ch)
                 continue
             if name.startswith("sigops") and ch in ("regtest", "testnet"):
                 # a caller that asked for the accurate counts first must not change the verdict
@@ -301,7 +306,7 @@ def drive(tier):
                     for s_ in [i_.scriptSig for i_ in t_.vin] + [o_.scriptPubKey for o_ in t_.vout]:
                         call(s_.GetSigOpCount, True)
             k, v = call(CheckBlock, blk, pw, mf, now)
-            R.add("check.blk", {"blk": gen.block_json(d), "now": now, "pow": pw, "merkle": mf, "name": name}, outcome(k, v), chain=ch,
+            R.add("check.blk", {"blk": gen.block_json(d), "now": int(now // 1), "pow": pw, "merkle": mf, "name": name}, outcome(k, v), chain=ch,
                   _cost=2000 + sum(len(t2["vout"][0]["script"]) if t2["vout"] else 0 for t2 in txs) * 30)
         # the chain's own genesis block must pass with proof of work on
         g = bitcoin.params.GENESIS_BLOCK
